@@ -2181,4 +2181,609 @@ def coreSchema : DB :=
 
 
 
+
+/-! ## lexing what the printer writes -/
+
+def opLexeme : RawOp → List Char
+  | .eq1 => ['='] | .eq2 => ['=', '='] | .ne => ['!', '='] | .re => ['~'] | .nre => ['!', '~']
+  | .le => ['<', '='] | .lt => ['<'] | .ge => ['>', '='] | .gt => ['>']
+
+/-- the spelling the printer uses for a token -/
+def lexeme : LTok → List Char
+  | .fix .from_ => kwFrom
+  | .fix .where_ => kwWhere
+  | .fix .report => kwReport
+  | .fix .star => ['*']
+  | .fix .dot => ['.']
+  | .fix (.op o) => opLexeme o
+  | .fix .and_ => kwAnd
+  | .fix .or_ => kwOr
+  | .fix .not_ => kwNot
+  | .fix .lparen => ['(']
+  | .fix .rparen => [')']
+  | .fix _ => []
+  | .str s => '"' :: s ++ ['"']
+  | .ymd s => s
+  | .dmy s => s
+  | .kwdate s => s
+  | .int s => s
+  | .qid a b => a ++ '.' :: b
+  | .id s => s
+
+/-- `[a-zA-Z][-_a-zA-Z0-9]*` -/
+def isIdent : List Char → Bool
+  | c :: cs => isLetterC c && cs.all isIdC
+  | [] => false
+
+def noMonthPrefix : List Char → Bool
+  | a :: b :: c :: _ => !isMonth3 a b c
+  | _ => true
+
+/-- an identifier that no earlier token class claims: not keyword-prefixed (`from where report and
+or not now`) and not starting with a month name (which the DDMMYY class might claim) -/
+def plainIdent (s : List Char) : Bool :=
+  isIdent s && (dropPrefix? kwFrom s).isNone && (dropPrefix? kwWhere s).isNone &&
+  (dropPrefix? kwReport s).isNone && (dropPrefix? kwAnd s).isNone && (dropPrefix? kwOr s).isNone &&
+  (dropPrefix? kwNot s).isNone && (dropPrefix? kwNow s).isNone && noMonthPrefix s
+
+def isDateYMD : List Char → Bool
+  | [a, b, c, d, '-', m1, m2, '-', d1, d2] =>
+    isDigitC a && isDigitC b && isDigitC c && isDigitC d && isDigitC m1 && isDigitC m2 && isDigitC d1 && isDigitC d2
+  | _ => false
+
+def isIntLexeme : List Char → Bool
+  | '+' :: ds => !ds.isEmpty && ds.all isDigitC
+  | '-' :: ds => !ds.isEmpty && ds.all isDigitC
+  | ds => !ds.isEmpty && ds.all isDigitC
+
+/-- the printer's output alphabet -/
+def printable : LTok → Bool
+  | .fix .from_ | .fix .where_ | .fix .report | .fix .star | .fix .dot | .fix (.op _) | .fix .and_
+  | .fix .or_ | .fix .not_ | .fix .lparen | .fix .rparen => true
+  | .fix _ => false
+  | .str s => s.all (fun c => c ≠ '"' && c ≠ '\\')
+  | .ymd s => isDateYMD s
+  | .dmy _ => false
+  | .kwdate _ => false
+  | .int s => isIntLexeme s
+  | .qid a b => plainIdent a && isIdent b
+  | .id s => plainIdent s
+
+/-- what may follow a date: nothing the optional time of the date pattern could swallow -/
+def dateSafe (rest : List Char) : Bool :=
+  match rest.dropWhile isSpaceC with
+  | [] => true
+  | c :: _ => c ≠ '(' && !isDigitC c
+
+theorem lexAt_fix_from (rest : List Char) : lexAt (kwFrom ++ ' ' :: rest) = some (.fix .from_, ' ' :: rest) := by
+  simp [kwFrom, lexAt, isLetterC, lexWord, dropPrefix?]
+
+
+
+theorem lexAt_fix (t : Tok) (h : printable (.fix t) = true) (rest : List Char) :
+    lexAt (lexeme (.fix t) ++ ' ' :: rest) = some (.fix t, ' ' :: rest) := by
+  cases t with
+  | op o =>
+    cases o <;> simp [lexeme, opLexeme, lexAt, isLetterC, isDigitC, lexSym]
+  | str _ => simp [printable] at h
+  | date _ => simp [printable] at h
+  | int _ => simp [printable] at h
+  | qid _ _ => simp [printable] at h
+  | id _ => simp [printable] at h
+  | from_ => simp [lexeme, kwFrom, lexAt, isLetterC, lexWord, dropPrefix?]
+  | where_ => simp [lexeme, kwFrom, kwWhere, lexAt, isLetterC, lexWord, dropPrefix?]
+  | report => simp [lexeme, kwFrom, kwWhere, kwReport, lexAt, isLetterC, lexWord, dropPrefix?]
+  | and_ => simp [lexeme, kwFrom, kwWhere, kwReport, kwAnd, lexAt, isLetterC, lexWord, dropPrefix?]
+  | or_ => simp [lexeme, kwFrom, kwWhere, kwReport, kwAnd, kwOr, lexAt, isLetterC, lexWord, dropPrefix?]
+  | not_ => simp [lexeme, kwFrom, kwWhere, kwReport, kwAnd, kwOr, kwNot, lexAt, isLetterC, lexWord, dropPrefix?]
+  | star => simp [lexeme, lexAt, isLetterC, isDigitC, lexSym]
+  | dot => simp [lexeme, lexAt, isLetterC, isDigitC, lexSym]
+  | lparen => simp [lexeme, lexAt, isLetterC, isDigitC, lexSym]
+  | rparen => simp [lexeme, lexAt, isLetterC, isDigitC, lexSym]
+
+theorem strBody_plain (q : Char) : ∀ (s rest : List Char), s.all (fun c => c ≠ q && c ≠ '\\') = true →
+    strBody q (s ++ q :: rest) = some (s, rest) := by
+  intro s
+  induction s with
+  | nil => intro rest _; rw [List.nil_append, strBody.eq_def]; simp
+  | cons c s ih =>
+    intro rest h
+    simp only [List.all_cons, Bool.and_eq_true, decide_eq_true_eq, ne_eq] at h
+    obtain ⟨⟨h1, h2⟩, h3⟩ := h
+    rw [List.cons_append, strBody.eq_def]
+    simp only [h1, h2, if_false]
+    rw [ih rest (by simpa using h3)]
+    rfl
+
+theorem lexAt_str (s : List Char) (h : printable (.str s) = true) (rest : List Char) :
+    lexAt (lexeme (.str s) ++ ' ' :: rest) = some (.str s, ' ' :: rest) := by
+  simp only [printable] at h
+  simp only [lexeme, List.cons_append, List.append_assoc, List.nil_append]
+  simp only [lexAt, isLetterC, isDigitC]
+  simp only [show (('a' ≤ '"' && '"' ≤ 'z') || ('A' ≤ '"' && '"' ≤ 'Z')) = false by decide,
+    show (('0' ≤ '"' && '"' ≤ '9') || decide ('"' = '+') || decide ('"' = '-')) = false by decide,
+    Bool.false_eq_true, if_false, lexSym]
+  rw [strBody_plain '"' s _ h]
+  rfl
+
+
+
+theorem dropPrefix_append_none : ∀ (kw s : List Char) (x : Char) (rest : List Char), x ∉ kw →
+    dropPrefix? kw s = none → dropPrefix? kw (s ++ x :: rest) = none := by
+  intro kw
+  induction kw with
+  | nil => intro s x rest _ h; simp [dropPrefix?] at h
+  | cons k kw ih =>
+    intro s x rest hx h
+    cases s with
+    | nil =>
+      have : k ≠ x := fun e => hx (by simp [e])
+      simp [dropPrefix?, this]
+    | cons c s =>
+      simp only [List.cons_append, dropPrefix?] at h ⊢
+      split
+      · rename_i e
+        simp only [e, if_true] at h
+        exact ih s x rest (fun hm => hx (List.mem_cons_of_mem _ hm)) h
+      · rfl
+
+theorem letter_not_digit (c : Char) (h : isLetterC c = true) : isDigitC c = false := by
+  simp only [isLetterC, Bool.or_eq_true, Bool.and_eq_true, decide_eq_true_eq] at h
+  simp only [isDigitC, Bool.and_eq_false_iff, decide_eq_false_iff_not]
+  right
+  intro h2
+  rcases h with ⟨h1, _⟩ | ⟨h1, _⟩
+  · have := Char.le_trans h1 h2; revert this; decide
+  · have := Char.le_trans h1 h2; revert this; decide
+
+
+
+theorem month3_letters (a b c : Char) (h : isMonth3 a b c = true) :
+    isLetterC a = true ∧ isLetterC b = true ∧ isLetterC c = true := by
+  simp only [isMonth3, List.any_eq_true, Bool.and_eq_true, decide_eq_true_eq] at h
+  obtain ⟨m, hm, ⟨rfl, rfl⟩, rfl⟩ := h
+  have : ∀ m ∈ monthTriples, isLetterC m.1 = true ∧ isLetterC m.2.1 = true ∧ isLetterC m.2.2 = true := by
+    decide
+  exact this m hm
+
+/-- the DDMMYY class cannot start at a letter unless a month name starts there -/
+theorem matchDMY_letter (c : Char) (tl : List Char) (hc : isLetterC c = true)
+    (hm : noMonthPrefix (c :: tl) = true) : matchDMY (c :: tl) = none := by
+  have hd := letter_not_digit c hc
+  have h3 : month3 (c :: tl) = none := by
+    cases tl with
+    | nil => simp [month3, hc]
+    | cons b tl =>
+      cases tl with
+      | nil => simp [month3, hc]
+      | cons d tl =>
+        have hm' : isMonth3 c b d = false := by simpa [noMonthPrefix] using hm
+        simp [month3, hc, hm']
+  simp [matchDMY, dayOpts, monthOpts, twoDigits, dig1, hd, h3, firstSome]
+
+theorem noMonthPrefix_append (s : List Char) (x : Char) (rest : List Char) (hs : s ≠ [])
+    (hx : isLetterC x = false) (h : noMonthPrefix s = true) : noMonthPrefix (s ++ x :: rest) = true := by
+  match s, hs, h with
+  | [a], _, _ =>
+    cases rest with
+    | nil => rfl
+    | cons y rest =>
+      simp only [List.cons_append, List.nil_append, noMonthPrefix, Bool.not_eq_true']
+      cases hmm : isMonth3 a x y with
+      | false => rfl
+      | true => have := (month3_letters a x y hmm).2.1; rw [hx] at this; cases this
+  | [a, b], _, _ =>
+    simp only [List.cons_append, List.nil_append, noMonthPrefix, Bool.not_eq_true']
+    cases hmm : isMonth3 a b x with
+    | false => rfl
+    | true => have := (month3_letters a b x hmm).2.2; rw [hx] at this; cases this
+  | a :: b :: c :: s, _, h => simpa [noMonthPrefix] using h
+
+theorem span_id (cs : List Char) (x : Char) (rest : List Char) (h : cs.all isIdC = true)
+    (hx : isIdC x = false) :
+    (cs ++ x :: rest).takeWhile isIdC = cs ∧ (cs ++ x :: rest).dropWhile isIdC = x :: rest := by
+  induction cs with
+  | nil => simp [hx]
+  | cons c cs ih =>
+    simp only [List.all_cons, Bool.and_eq_true] at h
+    simp [h.1, ih h.2]
+
+theorem idRun_ident (s : List Char) (x : Char) (rest : List Char) (h : isIdent s = true)
+    (hx : isIdC x = false) : idRun (s ++ x :: rest) = some (s, x :: rest) := by
+  cases s with
+  | nil => simp [isIdent] at h
+  | cons c cs =>
+    simp only [isIdent, Bool.and_eq_true] at h
+    have hs := span_id cs x rest h.2 hx
+    simp [idRun, h.1, hs.1, hs.2]
+
+/-- the part of `lexWord` before identifiers finds nothing at a plain identifier followed by a
+character that is neither a letter nor in any keyword -/
+theorem lexWord_plain (s : List Char) (x : Char) (rest : List Char) (h : plainIdent s = true)
+    (hx : isIdC x = false) (hxl : isLetterC x = false) :
+    lexWord (s ++ x :: rest) =
+      (match x :: rest with
+        | '.' :: r' =>
+          (match idRun r' with
+            | some (b, r'') => some (.qid s b, r'')
+            | none => some (.id s, x :: rest))
+        | _ => some (.id s, x :: rest)) := by
+  simp only [plainIdent, Bool.and_eq_true, Option.isNone_iff_eq_none] at h
+  obtain ⟨⟨⟨⟨⟨⟨⟨⟨hid, h1⟩, h2⟩, h3⟩, h4⟩, h5⟩, h6⟩, h7⟩, h8⟩ := h
+  have hnl : ∀ kw : List Char, kw.all isLetterC = true → x ∉ kw := by
+    intro kw hk hm
+    have := List.all_eq_true.mp hk x hm
+    rw [hxl] at this; cases this
+  have hne : s ≠ [] := by intro e; subst e; simp [isIdent] at hid
+  have hdmy : matchDMY (s ++ x :: rest) = none := by
+    cases s with
+    | nil => exact absurd rfl hne
+    | cons c cs =>
+      simp only [isIdent, Bool.and_eq_true] at hid
+      exact matchDMY_letter c _ hid.1 (noMonthPrefix_append (c :: cs) x rest hne hxl h8)
+  unfold lexWord
+  rw [dropPrefix_append_none kwFrom s x rest (hnl _ (by decide)) h1,
+    dropPrefix_append_none kwWhere s x rest (hnl _ (by decide)) h2,
+    dropPrefix_append_none kwReport s x rest (hnl _ (by decide)) h3,
+    dropPrefix_append_none kwAnd s x rest (hnl _ (by decide)) h4,
+    dropPrefix_append_none kwOr s x rest (hnl _ (by decide)) h5,
+    dropPrefix_append_none kwNot s x rest (hnl _ (by decide)) h6, hdmy,
+    dropPrefix_append_none kwNow s x rest (hnl _ (by decide)) h7, idRun_ident s x rest hid hx]
+  rfl
+
+
+
+theorem lexAt_word (s tail : List Char) (h : isIdent s = true) : lexAt (s ++ tail) = lexWord (s ++ tail) := by
+  cases s with
+  | nil => simp [isIdent] at h
+  | cons c cs =>
+    simp only [isIdent, Bool.and_eq_true] at h
+    simp [lexAt, h.1]
+
+theorem plainIdent_isIdent (s : List Char) (h : plainIdent s = true) : isIdent s = true := by
+  simp only [plainIdent, Bool.and_eq_true] at h
+  exact h.1.1.1.1.1.1.1.1
+
+theorem lexAt_id (s : List Char) (h : printable (.id s) = true) (rest : List Char) :
+    lexAt (lexeme (.id s) ++ ' ' :: rest) = some (.id s, ' ' :: rest) := by
+  simp only [printable] at h
+  simp only [lexeme]
+  rw [lexAt_word s _ (plainIdent_isIdent s h), lexWord_plain s ' ' rest h (by decide) (by decide)]
+  split
+  · rename_i e; simp at e
+  · rfl
+
+theorem lexAt_qid (a b : List Char) (h : printable (.qid a b) = true) (rest : List Char) :
+    lexAt (lexeme (.qid a b) ++ ' ' :: rest) = some (.qid a b, ' ' :: rest) := by
+  simp only [printable, Bool.and_eq_true] at h
+  simp only [lexeme, List.append_assoc, List.cons_append]
+  rw [lexAt_word a _ (plainIdent_isIdent a h.1), lexWord_plain a '.' _ h.1 (by decide) (by decide)]
+  simp only
+  rw [idRun_ident b ' ' rest h.2 (by decide)]
+
+
+
+theorem digit_ne_dash (c : Char) (h : isDigitC c = true) : c ≠ '-' := by
+  intro e; subst e; revert h; decide
+
+theorem digit_not_letter (c : Char) (h : isDigitC c = true) : isLetterC c = false := by
+  cases hl : isLetterC c with
+  | false => rfl
+  | true => rw [letter_not_digit c hl] at h; cases h
+
+theorem take_lexeme (l r : List Char) : lexemeOf (l ++ r) r = l := by
+  simp [lexemeOf]
+
+theorem span_digits (ds : List Char) (x : Char) (rest : List Char) (h : ds.all isDigitC = true)
+    (hx : isDigitC x = false) :
+    (ds ++ x :: rest).takeWhile isDigitC = ds ∧ (ds ++ x :: rest).dropWhile isDigitC = x :: rest := by
+  induction ds with
+  | nil => simp [hx]
+  | cons c cs ih =>
+    simp only [List.all_cons, Bool.and_eq_true] at h
+    simp [h.1, ih h.2]
+
+set_option linter.unusedSimpArgs false in
+/-- digits followed by something that is neither a digit nor `-` are not the start of a date -/
+theorem noDate_digits (ds : List Char) (x : Char) (rest : List Char) (hne : ds ≠ [])
+    (h : ds.all isDigitC = true) (hx : isDigitC x = false) (hx' : x ≠ '-') :
+    matchYMD (ds ++ x :: rest) = none ∧ matchDMY (ds ++ x :: rest) = none := by
+  have nd : ∀ c, isDigitC c = true → (c = '-') = False := fun c hc => by simp [digit_ne_dash c hc]
+  have nl : ∀ c, isDigitC c = true → isLetterC c = false := digit_not_letter
+  match ds, hne, h with
+  | [a], _, h =>
+    simp only [List.all_cons, List.all_nil, Bool.and_true] at h
+    constructor
+    · simp [matchYMD, twoDigits, dig1, h, hx]
+    · simp [matchDMY, dayOpts, monthOpts, twoDigits, dig1, dash, month3, yearPart, firstSome, h, hx, hx', nl a h]
+  | [a, b], _, h =>
+    simp only [List.all_cons, List.all_nil, Bool.and_true, Bool.and_eq_true] at h
+    constructor
+    · simp [matchYMD, twoDigits, dig1, h.1, h.2, hx]
+    · simp [matchDMY, dayOpts, monthOpts, twoDigits, dig1, dash, month3, yearPart, firstSome, h.1, h.2, hx, hx',
+        nl a h.1, nd b h.2]
+  | [a, b, c], _, h =>
+    simp only [List.all_cons, List.all_nil, Bool.and_true, Bool.and_eq_true] at h
+    obtain ⟨ha, hb, hc⟩ := h
+    constructor
+    · simp [matchYMD, twoDigits, dig1, ha, hb, hc, hx]
+    · simp [matchDMY, dayOpts, monthOpts, twoDigits, dig1, dash, month3, yearPart, firstSome, ha, hb, hc, hx, hx',
+        nl a ha, nd b hb, nd c hc]
+  | [a, b, c, d], _, h =>
+    simp only [List.all_cons, List.all_nil, Bool.and_true, Bool.and_eq_true] at h
+    obtain ⟨ha, hb, hc, hd⟩ := h
+    constructor
+    · simp [matchYMD, twoDigits, dig1, dash, ha, hb, hc, hd, hx, hx']
+    · simp [matchDMY, dayOpts, monthOpts, twoDigits, dig1, dash, month3, yearPart, firstSome, ha, hb, hc, hx, hx',
+        nl a ha, nd b hb, nd c hc]
+  | a :: b :: c :: d :: e :: ds, _, h =>
+    simp only [List.all_cons, Bool.and_eq_true] at h
+    obtain ⟨ha, hb, hc, hd, he, _⟩ := h
+    constructor
+    · simp [matchYMD, twoDigits, dig1, dash, ha, hb, hc, hd, nd e he]
+    · simp [matchDMY, dayOpts, monthOpts, twoDigits, dig1, dash, month3, yearPart, firstSome, ha, hb, hc,
+        nl a ha, nd b hb, nd c hc]
+
+
+theorem lexNum_digits (ds : List Char) (rest : List Char) (hne : ds ≠ []) (h : ds.all isDigitC = true) :
+    lexNum (ds ++ ' ' :: rest) = some (.int ds, ' ' :: rest) := by
+  obtain ⟨h1, h2⟩ := noDate_digits ds ' ' rest hne h (by decide) (by decide)
+  have hsp := span_digits ds ' ' rest h (by decide)
+  have hbody : stripSign (ds ++ ' ' :: rest) = ds ++ ' ' :: rest := by
+    cases ds with
+    | nil => exact absurd rfl hne
+    | cons c cs =>
+      simp only [List.all_cons, Bool.and_eq_true] at h
+      have hp : c ≠ '+' := by intro e; subst e; exact absurd h.1 (by decide)
+      have hm : c ≠ '-' := digit_ne_dash c h.1
+      simp [stripSign, hp, hm]
+  have he : ds.isEmpty = false := by cases ds <;> simp_all
+  simp only [lexNum, h1, h2, hbody, hsp.1, hsp.2, he, Bool.false_eq_true, if_false, take_lexeme]
+
+theorem lexNum_signed (sg : Char) (hsg : sg = '+' ∨ sg = '-') (ds : List Char) (rest : List Char)
+    (hne : ds ≠ []) (h : ds.all isDigitC = true) :
+    lexNum (sg :: ds ++ ' ' :: rest) = some (.int (sg :: ds), ' ' :: rest) := by
+  have hsp := span_digits ds ' ' rest h (by decide)
+  have hd : isDigitC sg = false := by rcases hsg with e | e <;> (subst e; decide)
+  have hl : isLetterC sg = false := by rcases hsg with e | e <;> (subst e; decide)
+  have h1 : matchYMD (sg :: (ds ++ ' ' :: rest)) = none := by
+    simp [matchYMD, twoDigits, dig1, hd]
+  have h2 : matchDMY (sg :: (ds ++ ' ' :: rest)) = none := by
+    simp [matchDMY, dayOpts, monthOpts, twoDigits, dig1, month3, firstSome, hd, hl]
+  have he : ds.isEmpty = false := by cases ds <;> simp_all
+  have hbody : stripSign (sg :: (ds ++ ' ' :: rest)) = ds ++ ' ' :: rest := by
+    rcases hsg with e | e <;> (subst e; simp [stripSign])
+  have hlex : lexemeOf (sg :: (ds ++ ' ' :: rest)) (' ' :: rest) = sg :: ds := by
+    have := take_lexeme (sg :: ds) (' ' :: rest)
+    simpa using this
+  simp only [List.cons_append, lexNum, h1, h2, hbody, hsp.1, hsp.2, he, Bool.false_eq_true, if_false, hlex]
+
+theorem lexAt_int (s : List Char) (h : printable (.int s) = true) (rest : List Char) :
+    lexAt (lexeme (.int s) ++ ' ' :: rest) = some (.int s, ' ' :: rest) := by
+  simp only [printable] at h
+  simp only [lexeme]
+  cases s with
+  | nil => simp [isIntLexeme] at h
+  | cons c cs =>
+    by_cases hp : c = '+'
+    · subst hp
+      simp only [isIntLexeme, Bool.and_eq_true, Bool.not_eq_true', List.isEmpty_eq_false_iff] at h
+      have := lexNum_signed '+' (Or.inl rfl) cs rest h.1 h.2
+      simpa [lexAt, isLetterC, isDigitC] using this
+    · by_cases hm : c = '-'
+      · subst hm
+        simp only [isIntLexeme, Bool.and_eq_true, Bool.not_eq_true', List.isEmpty_eq_false_iff] at h
+        have := lexNum_signed '-' (Or.inr rfl) cs rest h.1 h.2
+        simpa [lexAt, isLetterC, isDigitC] using this
+      · have hall : (c :: cs).all isDigitC = true := by
+          unfold isIntLexeme at h
+          split at h
+          · rename_i e; cases e; exact absurd rfl hp
+          · rename_i e; cases e; exact absurd rfl hm
+          · simp only [Bool.and_eq_true] at h; exact h.2
+        have hc : isDigitC c = true := by simp only [List.all_cons, Bool.and_eq_true] at hall; exact hall.1
+        have := lexNum_digits (c :: cs) rest (by simp) hall
+        simp only [List.cons_append] at this ⊢
+        simp only [lexAt, digit_not_letter c hc, hc, Bool.false_eq_true, if_false, Bool.true_or, if_true]
+        exact this
+
+
+
+theorem timeTail_safe (rest : List Char) (h : dateSafe rest = true) :
+    timeTail (' ' :: rest) = ' ' :: rest := by
+  have hsp : isSpaceC ' ' = true := by decide
+  unfold dateSafe at h
+  unfold timeTail
+  simp only [List.dropWhile_cons, hsp, if_true]
+  cases hd : rest.dropWhile isSpaceC with
+  | nil => simp [hhmm, twoDigits, dig1]
+  | cons c r =>
+    rw [hd] at h
+    simp only [Bool.and_eq_true, decide_eq_true_eq, Bool.not_eq_true', ne_eq] at h
+    simp [h.1, hhmm, twoDigits, dig1, h.2]
+
+theorem lexAt_ymd (s : List Char) (h : printable (.ymd s) = true) (rest : List Char)
+    (hsafe : dateSafe rest = true) :
+    lexAt (lexeme (.ymd s) ++ ' ' :: rest) = some (.ymd s, ' ' :: rest) := by
+  simp only [printable] at h
+  simp only [lexeme]
+  unfold isDateYMD at h
+  split at h
+  · rename_i a b c d m1 m2 d1 d2
+    simp only [Bool.and_eq_true] at h
+    obtain ⟨⟨⟨⟨⟨⟨⟨ha, hb⟩, hc⟩, hd⟩, hm1⟩, hm2⟩, hd1⟩, hd2⟩ := h
+    have hl := digit_not_letter _ ha
+    have hlex : lexemeOf ([a, b, c, d, '-', m1, m2, '-', d1, d2] ++ ' ' :: rest) (' ' :: rest)
+        = [a, b, c, d, '-', m1, m2, '-', d1, d2] := take_lexeme _ _
+    simp only [List.cons_append, List.nil_append] at hlex ⊢
+    simp [lexAt, hl, ha, lexNum, matchYMD, twoDigits, dig1, dash, monthOpts, dayPart, hb, hc, hd, hm1, hm2,
+      hd1, hd2, timeTail_safe rest hsafe, hlex]
+  · cases h
+
+
+
+/-- the printer's rendering: every token followed by one space -/
+def render (ts : List LTok) : List Char := ts.flatMap (fun t => lexeme t ++ [' '])
+
+def headSafe (t : LTok) : Bool :=
+  match lexeme t with
+  | c :: _ => c ≠ '(' && !isDigitC c
+  | [] => true
+
+/-- a date is followed by nothing, or by a token that does not start with `(` or a digit (in the
+printer's output: `)`, `and`, `or`, `where` or the final `.`) -/
+def seqOK : List LTok → Bool
+  | [] => true
+  | [_] => true
+  | .ymd _ :: t :: ts => headSafe t && seqOK (t :: ts)
+  | _ :: t :: ts => seqOK (t :: ts)
+
+theorem lexAt_printable (t : LTok) (h : printable t = true) (rest : List Char)
+    (hsafe : (∃ s, t = .ymd s) → dateSafe rest = true) :
+    lexAt (lexeme t ++ ' ' :: rest) = some (t, ' ' :: rest) := by
+  cases t with
+  | fix t => exact lexAt_fix t h rest
+  | str s => exact lexAt_str s h rest
+  | ymd s => exact lexAt_ymd s h rest (hsafe ⟨s, rfl⟩)
+  | dmy s => simp [printable] at h
+  | kwdate s => simp [printable] at h
+  | int s => exact lexAt_int s h rest
+  | qid a b => exact lexAt_qid a b h rest
+  | id s => exact lexAt_id s h rest
+
+theorem space_cases (c : Char) (h : isSpaceC c = true) :
+    c = ' ' ∨ c = '\t' ∨ c = '\n' ∨ c = '\r' ∨ c = '\x0b' ∨ c = '\x0c' := by
+  simp only [isSpaceC, Bool.or_eq_true, decide_eq_true_eq] at h
+  rcases h with ((((e | e) | e) | e) | e) | e <;> simp [e]
+
+theorem nonspace_of (p : Char → Bool) (hp : p ' ' = false ∧ p '\t' = false ∧ p '\n' = false ∧ p '\r' = false
+    ∧ p '\x0b' = false ∧ p '\x0c' = false) (c : Char) (h : p c = true) : isSpaceC c = false := by
+  cases hs : isSpaceC c with
+  | false => rfl
+  | true =>
+    rcases space_cases c hs with e | e | e | e | e | e <;> (subst e; simp_all)
+
+theorem digit_not_space (c : Char) (h : isDigitC c = true) : isSpaceC c = false :=
+  nonspace_of isDigitC (by decide) c h
+
+theorem letter_not_space (c : Char) (h : isLetterC c = true) : isSpaceC c = false :=
+  nonspace_of isLetterC (by decide) c h
+
+/-- a printable token has a non-empty lexeme that does not start with white space -/
+theorem lexeme_head (t : LTok) (h : printable t = true) :
+    ∃ c cs, lexeme t = c :: cs ∧ isSpaceC c = false := by
+  cases t with
+  | fix t =>
+    cases t <;> first
+      | (simp [printable] at h; done)
+      | exact ⟨_, _, rfl, by decide⟩
+      | (rename_i o; cases o <;> exact ⟨_, _, rfl, by decide⟩)
+  | str s => exact ⟨'"', s ++ ['"'], rfl, by decide⟩
+  | ymd s =>
+    simp only [printable] at h
+    unfold isDateYMD at h
+    split at h
+    · simp only [Bool.and_eq_true] at h
+      exact ⟨_, _, rfl, digit_not_space _ h.1.1.1.1.1.1.1⟩
+    · cases h
+  | dmy s => simp [printable] at h
+  | kwdate s => simp [printable] at h
+  | int s =>
+    simp only [printable] at h
+    cases s with
+    | nil => simp [isIntLexeme] at h
+    | cons c cs =>
+      refine ⟨c, cs, rfl, ?_⟩
+      by_cases hp : c = '+'
+      · subst hp; decide
+      · by_cases hm : c = '-'
+        · subst hm; decide
+        · unfold isIntLexeme at h
+          split at h
+          · rename_i e; cases e; exact absurd rfl hp
+          · rename_i e; cases e; exact absurd rfl hm
+          · simp only [Bool.and_eq_true, List.all_cons] at h
+            exact digit_not_space c h.2.1
+  | qid a b =>
+    simp only [printable, Bool.and_eq_true] at h
+    have := plainIdent_isIdent a h.1
+    cases a with
+    | nil => simp [isIdent] at this
+    | cons c cs =>
+      simp only [isIdent, Bool.and_eq_true] at this
+      exact ⟨c, cs ++ '.' :: b, rfl, letter_not_space c this.1⟩
+  | id s =>
+    simp only [printable] at h
+    have := plainIdent_isIdent s h
+    cases s with
+    | nil => simp [isIdent] at this
+    | cons c cs =>
+      simp only [isIdent, Bool.and_eq_true] at this
+      exact ⟨c, cs, rfl, letter_not_space c this.1⟩
+
+theorem lexLine_space (n : Nat) (x : List Char) : lexLine n (' ' :: x) = lexLine n x := by
+  cases n with
+  | zero => rfl
+  | succ n =>
+    have : isSpaceC ' ' = true := by decide
+    simp only [lexLine, List.dropWhile_cons, this, if_true]
+
+theorem dateSafe_render (t : LTok) (ts : List LTok) (hp : printable t = true) (hs : headSafe t = true) :
+    dateSafe (render (t :: ts)) = true := by
+  obtain ⟨c, cs, hl, hc⟩ := lexeme_head t hp
+  unfold headSafe at hs
+  rw [hl] at hs
+  simp only [render, List.flatMap_cons, hl, List.cons_append, dateSafe, List.dropWhile_cons, hc,
+    Bool.false_eq_true, if_false]
+  exact hs
+
+/-- lexing the rendering of a printable token list gives back the list -/
+theorem lexLine_render : ∀ (ts : List LTok) (n : Nat), ts.length < n →
+    (∀ t ∈ ts, printable t = true) → seqOK ts = true → lexLine n (render ts) = .ok ts := by
+  intro ts
+  induction ts with
+  | nil =>
+    intro n hn _ _
+    obtain ⟨m, rfl⟩ : ∃ m, n = m + 1 := ⟨n - 1, by simp at hn; omega⟩
+    simp [render, lexLine]
+  | cons t ts ih =>
+    intro n hn hp hs
+    simp only [List.length_cons] at hn
+    obtain ⟨m, rfl⟩ : ∃ m, n = m + 1 := ⟨n - 1, by omega⟩
+    have hpt := hp t (by simp)
+    obtain ⟨c, cs, hl, hc⟩ := lexeme_head t hpt
+    have hsafe : (∃ s, t = .ymd s) → dateSafe (render ts) = true := by
+      intro ⟨s, e⟩
+      subst e
+      cases ts with
+      | nil => rfl
+      | cons t2 ts2 =>
+        simp only [seqOK, Bool.and_eq_true] at hs
+        exact dateSafe_render t2 ts2 (hp t2 (by simp)) hs.1
+    have hs' : seqOK ts = true := by
+      cases ts with
+      | nil => rfl
+      | cons t2 ts2 =>
+        cases t <;> simp_all [seqOK]
+    have hlex := lexAt_printable t hpt (render ts) hsafe
+    have hr : render (t :: ts) = c :: (cs ++ ' ' :: render ts) := by
+      simp [render, hl]
+    rw [hr, lexLine]
+    simp only [List.dropWhile_cons, hc, Bool.false_eq_true, if_false]
+    rw [hl, List.cons_append] at hlex
+    simp only [hlex, List.length_cons, List.length_append]
+    rw [if_pos (by omega), lexLine_space, ih m (by omega) (fun x hx => hp x (by simp [hx])) hs']
+
+/-- lexical token ↦ parser token; `iv` stands for `int(lexeme)`, `dv` for `tsdb.cast(':date', lexeme)` -/
+def toTok (iv : List Char → Int) (dv : List Char → Option Nat) : LTok → Tok
+  | .fix t => t
+  | .str s => .str s
+  | .ymd s => .date (dv s)
+  | .dmy s => .date (dv s)
+  | .kwdate s => .date (dv s)
+  | .int s => .int (iv s)
+  | .qid a b => .qid (String.ofList a) (String.ofList b)
+  | .id s => .id (String.ofList s)
+
+
 end Verif.C11
